@@ -223,9 +223,9 @@ def check_case(acc, term, wrapper, record_sample=False, ast_hook=None):
     if not ok:
         bad("wrong-effect-trace", f"{why}; model events {lang.events_of(m['trace'])[:10]} impl log {r['log'][:10]}")
         return
-    if m["env"] is not None and m["outcome"][0] == "val":
+    if m["env"] is not None and m["outcome"][0] in ("val", "exc"):
         if r["env"] != m["env"]:
-            bad("wrong-final-environment", f"model {m['env']} impl {r['env']}")
+            bad("wrong-final-environment" + ("-after-exception" if m["outcome"][0] == "exc" else ""), f"model {m['env']} impl {r['env']}")
             return
         if r["extra"]:
             bad("leaked-variable", f"user-visible names not in the model: {r['extra']}")
